@@ -768,6 +768,8 @@ func init() {
 			stSpecs := storeSpecs("C15", under, tier, 3, 4, func(sp *StoreScenarioSpec, o *alphabetOpts) {
 				sp.Twin = true
 				o.reads = false
+				// one combined read: whatever a query caches must not survive Clear
+				o.runs = append(o.runs, opReadAll(0))
 				// model-free world: a weight that underflows to zero when halved leaves
 				// an "empty" store with a populated index range behind
 				o.runs = append(o.runs, opAddW(0, o.idxA[len(o.idxA)-1], 5e-324))
